@@ -40,8 +40,13 @@ DEFAULT_UNITS = {'angular position': 'rad', 'angular speed': 'rad/s', 'angular a
 CT = [0.0, 0.5, 1.25, 1.5, 2.75]        # concrete instants (dyadic) used when the output units are not the defaults
 
 
-def build_history(env, n_inst, concrete_times=False, time_units=None):
-    """motor(currents) - joint - spur(m,b,E) - mate - spur(m,b,E): every one of the 11 variables is recorded by some element"""
+CT_EARLIER = [0.25, 0.75, 1.0, 2.0, 3.0]  # instants of an earlier, discarded simulation on the same powertrain
+
+
+def build_history(env, n_inst, concrete_times=False, time_units=None, earlier=False):
+    """motor(currents) - joint - spur(m,b,E) - mate - spur(m,b,E): every one of the 11 variables is recorded by some element.
+    earlier=True: the powertrain first carried ANOTHER history with the same number of instants (other instants, other
+    samples), was asked for a snapshot of it and was reset() - nothing of it may survive"""
     import gearpy.units as gu
     import gearpy.mechanical_objects as mo
     from gearpy.utils import add_fixed_joint, add_gear_mating
@@ -58,16 +63,29 @@ def build_history(env, n_inst, concrete_times=False, time_units=None):
     add_fixed_joint(master=b, slave=f)
     pt = Powertrain(motor=m)
     els = [m, a, b, f]
+    if earlier:
+        e_times, _ = _fill_history(env, pt, els, n_inst, concrete_times, time_units, 'e', CT_EARLIER)
+        try:
+            pt.snapshot(target_time=gu.Time(e_times[1], 'sec'), print_data=False)
+        except ValueError:
+            pass
+        pt.reset()
+    times, hist = _fill_history(env, pt, els, n_inst, concrete_times, time_units, '', CT)
+    return pt, els, times, hist
+
+
+def _fill_history(env, pt, els, n_inst, concrete_times, time_units, tag, ct):
+    import gearpy.units as gu
     times = []
     hist = {}
     tprev = None
     for k in range(n_inst):
         if concrete_times:
-            t = CT[k]
+            t = ct[k]
         elif k == 0:
-            t = env.real('t0')
+            t = env.real(tag + 't0')
         else:
-            d = env.real('d%d' % k, lo=1e-3, hi=1e3)      # strictly increasing instants
+            d = env.real('%sd%d' % (tag, k), lo=1e-3, hi=1e3)      # strictly increasing instants
             t = tprev + d
         tprev = t
         times.append(t)
@@ -76,14 +94,14 @@ def build_history(env, n_inst, concrete_times=False, time_units=None):
         for ei, el in enumerate(els):
             for var in el.time_variables.keys() if k else _advertised(el):
                 if var == 'pwm':
-                    v = env.real('s_%d_pwm_%d' % (ei, k), lo=-1, hi=1)
+                    v = env.real('%ss_%d_pwm_%d' % (tag, ei, k), lo=-1, hi=1)
                     el.pwm = v
                 else:
-                    v = env.real('s_%d_%s_%d' % (ei, var.replace(' ', '_'), k))
+                    v = env.real('%ss_%d_%s_%d' % (tag, ei, var.replace(' ', '_'), k))
                     setattr(el, ATTR[var], getattr(gu, KIND[var])(v, DEFAULT_UNITS[var]))
                 hist[(ei, var, k)] = v
             el.update_time_variables()
-    return pt, els, times, hist
+    return times, hist
 
 
 def _advertised(el):
@@ -115,7 +133,8 @@ class Snapshot(HarnessBase):
     def run(self, env):
         import gearpy.units as gu
         conc = bool(self.units) or bool(self.time_units)       # linearity discipline: unit factors only with a concrete time axis
-        pt, els, times, hist = build_history(env, self.n_inst, concrete_times=conc, time_units=self.time_units)
+        pt, els, times, hist = build_history(env, self.n_inst, concrete_times=conc, time_units=self.time_units,
+                                             earlier=(self.idx % 3 == 0))
         if self.where == 'on_grid':
             tt = times[1]
         elif self.where == 'late':
@@ -398,7 +417,7 @@ REQUIRED_TRIGGERS = {'quick': ('snap.columns_are_the_selected_variables', 'snap.
                                'snap.value_is_sample_or_interpolation', 'snap.error_only_outside_interval',
                                'exp.columns', 'exp.one_row_per_instant', 'exp.time', 'exp.value')}
 BOUNDS = {
-    'quick': 'histories whose instants carry mixed time units (as a continuation in another unit leaves them); a 4-element powertrain (motor with currents, fully specified spur gear, spur gear with module only, flywheel: all 11 '
+    'quick': 'histories whose instants carry mixed time units (as a continuation in another unit leaves them); in every third cell the powertrain first carried another history of the same length (other instants and samples), was asked for a snapshot and was reset(); in every second cell another snapshot is taken first; a 4-element powertrain (motor with currents, fully specified spur gear, spur gear with module only, flywheel: all 11 '
              'variables are recorded by some element) with 3-4 instants whose samples, instants and the target time are all '
              'symbolic; snapshot with default variables, each single variable, 64 seeded subsets (on the grid and between '
              'instants), seeded output units; export in each of the four time units with seeded output units',
